@@ -78,11 +78,17 @@ def run_logix_histories(ctx, model):
             sess.close()
             continue
         if rng.random() < 0.4:
-            for _ in range(65535 * rng.choice([1, 2]) - rng.randint(1, 60)):
+            # move the counter close to its wrap.  The jump is followed by one connected message so that the count the target
+            # saw last is the driver's current one again: draws that are never sent (65535·k − m of them here) are not a
+            # history the property speaks about, and without this message a later packet that draws several counts before
+            # it is sent (embedded requests of a multi-service packet) could land on the count of the last upload request
+            for _ in range(65535 * rng.choice([1, 2]) - rng.randint(2, 60)):
                 next(sess.d._sequence)
+            sess.d.generic_message(service=1, class_code=0x70, instance=1, connected=True, name="sync")
         sess.log()
-        n0 = len(sess.sock.frames)
+        n0 = max(0, len(sess.sock.frames) - 1)       # the last frame before the calls is part of the adjacency check
         calls = []
+        abandoned = False
         for _ in range(rng.choice([2, 4, 8])):
             if rng.random() < 0.45:
                 tags = [r[0] for r in (lx.gen_read(rng, p) for _ in range(rng.choice([1, 2, 5, 20]))) if r]
@@ -93,6 +99,9 @@ def run_logix_histories(ctx, model):
                     except BaseException as e:  # noqa
                         if isinstance(e, (KeyboardInterrupt, SystemExit)):
                             raise
+                        if core.exn_class(e) == "hang":
+                            abandoned = True      # the watchdog cut a very long transfer short: the session is not judged
+                            break
             else:
                 ws = [w for w in (c02.gen_write(rng, p) for _ in range(rng.choice([1, 2, 5, 12]))) if w]
                 # several bits of the same integers, and exact duplicates, in one call
@@ -110,6 +119,13 @@ def run_logix_histories(ctx, model):
                     except BaseException as e:  # noqa
                         if isinstance(e, (KeyboardInterrupt, SystemExit)):
                             raise
+                        if core.exn_class(e) == "hang":
+                            abandoned = True
+                            break
+        if abandoned:
+            ctx.count("logix-history-abandoned-on-timeout")
+            sess.close()
+            continue
         frames = [f for f in sess.sock.frames[n0:] if f[:2] == b"\x70\x00" and len(f) >= 46]
         seqs = [struct.unpack_from("<H", f, 44)[0] for f in frames]
         ctx.case("logix-histories", ("lh", i, len(frames)))
